@@ -8,6 +8,8 @@
 import Stevia.Proofs.TreeState
 import Stevia.Proofs.HashSetState
 import Stevia.Proofs.BytesRT
+import Stevia.Proofs.GenTreeQuery32
+import Stevia.Proofs.GenTreeQuery8
 
 namespace Stevia.C04
 open Stevia
@@ -61,5 +63,23 @@ theorem aset_reopen_from_bytes (f : AFmt) (hp : 0 < f.pw) (hv : 0 < f.vsz) (s : 
 theorem hset_reopen_same_state {γ : Type} [DecidableEq γ] (hash : γ → Nat) (vd : γ) (s : HSet γ)
     (h : s.Inv hash) : (s.image vd).decode vd = some s :=
   HImage.decode_image vd s h.layoutOk
+
+/-! ### Tie through the translator: re-opening as the source does it -/
+
+/-- `avl_tree.rs`: the translated `from_bytes_mut` leaves an image whose record count does not exceed its capacity word
+    untouched — every register, every header word — and in general is the model's `openMut` on layouts. -/
+theorem translated_reopen_u32 (d : Rec α β) (m : TreeImage α β) (hm : m.recs.length ≤ m.hdr.cap) :
+    Gen32.from_bytes_mut d m = m := by
+  rw [Gen32.from_bytes_mut_eq]
+  unfold Imp.openMut
+  rw [if_neg (by omega)]
+
+/-- `u8_avl_tree.rs`: the translated `from_bytes_mut` leaves an image whose record count does not exceed its capacity word
+    untouched — every register, every header word — and in general is the model's `openMut` on layouts. -/
+theorem translated_reopen_u8 (d : Rec α β) (m : TreeImage α β) (hm : m.recs.length ≤ m.hdr.cap) :
+    Gen8.from_bytes_mut d m = m := by
+  rw [Gen8.from_bytes_mut_eq]
+  unfold Imp.openMut
+  rw [if_neg (by omega)]
 
 end Stevia.C04
